@@ -91,7 +91,7 @@ for cls, cmpname in (("MinValue", "le"), ("MaxValue", "ge")):
             "records-something [C01,C05]": "self._new_value is not undefined",
             "old-value-untouched [C14,C05]": "same(self._old_value, old(self._old_value))",
         },
-        ghost={"frame_props": ["C14"], "callee_default": cls == "MinValue"},
+        ghost={"frame_props": ["C14"], "callee_default": True},
         safety_props=["C18"],
         **common,
     )
@@ -158,7 +158,7 @@ for variant, newty in (("first", "=Ellipsis"), ("later", "List[Val]")):
         ensures=ens,
         assumes=["PS6", "PS7", "X14"],
         safety_props=["C18"],
-        ghost={"frame_props": ["C14"], "callee_default": variant == "later"},
+        ghost={"frame_props": ["C14"], "callee_default": variant == "first", "frame_types": {"self._new_value": "List[Val]"}},
     )
     # E1 variant: after the operation the tested value is a member of what is recorded (C01/C05: "a container holding every tested value")
     contract(
@@ -176,3 +176,260 @@ for variant, newty in (("first", "=Ellipsis"), ("later", "List[Val]")):
         assumes=["PS6", "PS7", "X14", "E1"],
         safety_props=["C18"],
     )
+
+# --------------------------------------------------------------------------------------------
+# EqValue.__eq__ / _get_changes
+
+from pyvc.specs import abstract_assign
+from pyvc.types import Obj as _Obj
+
+EQ = "inline_snapshot._snapshot.eq_value"
+
+
+def _get_adapter(I, args, kwargs, node):
+    return _Obj("inline_snapshot._adapter.adapter.Adapter", {"context": args[0].fields.get("context")})
+
+
+for variant, newreq, chg in (("uncommitted", "self._new_value is undefined", "unbound"), ("committed", "self._new_value is not undefined", "List[Chg]")):
+    contract(
+        EQ + ".EqValue.__eq__",
+        name=f"{EQ}.EqValue.__eq__#{variant}",
+        params={"self": "@EValue", "other": "Val"},
+        shapes={"EValue": Shape(EQ + ".EqValue", {"_old_value": "Val", "_new_value": "Val", "_ast_node": "Node", "_context": "@Context", "_changes": chg})},
+        returns="Val",
+        result_name="ret",
+        uses=["val"],
+        callees={"Adapter.get_adapter": _get_adapter, "Adapter.assign": abstract_assign},
+        frame=["self._new_value", "self._changes", "state.incorrect_values", "state.missing_values"],
+        requires={"state": newreq, "compared-value-is-not-the-sentinel": "other is not undefined"},
+        raises={"UsageError": {"only-from-clone [C17]": "not T(eq(other, deepcopy(other)))"}},
+        ensures={
+            "missing-counted [C07]": "state.missing_values == old(state.missing_values) + ite(self._old_value is undefined, 1, 0)",
+            # C07: the comparison with the value in the source is always reported through _return
+            "failing-comparison-counted [C07]": "implies(not T(eq(self._old_value, other)), state.incorrect_values > old(state.incorrect_values))",
+            "holding-comparison-not-counted [C07]": "implies(T(eq(self._old_value, other)), state.incorrect_values == old(state.incorrect_values))",
+            "plain-result-without-flags [C06]": "implies(" + NOFLAGS + " and self._old_value is not undefined, same(ret, eq(self._old_value, other)))",
+            # C02: with create/fix the comparison is made against what the adapter recorded, so the test can continue
+            "new-result-when-approved [C02]": "implies(" + IGNORE + ", same(ret, eq(self._new_value, other)))",
+            # C14/C17: the first committed comparison records assign(old, node, deep copy of other); later ones change nothing
+            "first-comparison-commits [C17,C02,C14]": "implies(old(self._new_value) is undefined and not cmp_only,"
+                " same(self._new_value, assign_result(self._old_value, self._ast_node, deepcopy(other)))"
+                " and len(self._changes) == len(assign_trace(self._old_value, self._ast_node, deepcopy(other))))",
+            "later-comparisons-keep-state [C14]": "implies(old(self._new_value) is not undefined, same(self._new_value, old(self._new_value)))",
+            # C11: comparisons made only for alignment (compare_context) commit nothing
+            "compare-only-commits-nothing [C11,C14]": "implies(cmp_only, same(self._new_value, old(self._new_value)))",
+            "old-value-untouched [C14,C05]": "same(self._old_value, old(self._old_value))",
+        },
+        assumes=["PS6", "PS7", "X14"],
+        safety_props=["C18"],
+        ghost={"frame_props": ["C14"], "callee_default": variant == "uncommitted"},
+    )
+
+for variant, newreq, chg in (("uncommitted", "self._new_value is undefined", "unbound"), ("committed", "self._new_value is not undefined", "List[Chg]")):
+    contract(
+        EQ + ".EqValue._get_changes",
+        name=f"{EQ}.EqValue._get_changes#{variant}",
+        params={"self": "@EValue"},
+        shapes={"EValue": Shape(EQ + ".EqValue", {"_old_value": "Val", "_new_value": "Val", "_ast_node": "Node", "_context": "@Context", "_changes": chg})},
+        requires={"state (class invariant established by EqValue.__eq__: _changes is assigned iff a comparison was committed)": newreq},
+        ensures={},
+        frame=[],
+        # C18: "nested snapshots ... which are reached only while aligning a list" must not break end-of-session processing
+        safety_props=["C18"],
+        ghost={"frame_props": ["C14"]},
+    )
+
+# --------------------------------------------------------------------------------------------
+# UndecidedValue._get_changes (inner recursive generator `handle`) -- a snapshot that was never compared
+
+import z3 as _z3
+
+from pyvc.core import fresh_value as _fresh
+from pyvc.types import BOOL as _BOOL, SV as _SV, Abs as _Abs, parse_ty as _pt, sort_of as _so
+from pyvc.specs import val_term as _vt
+
+UV = "inline_snapshot._snapshot.undecided_value"
+
+
+def _items(I, obj, node):
+    """X (adapter.items): the sub-values of a container value paired with their nodes."""
+    l = _fresh(I.ctx, _pt("List[Item]"), "items")
+    return l
+
+
+def _get_adapter_type(I, args, kwargs, node):
+    """get_adapter_type(obj): container adapters (list/tuple/dict/constructor calls) have `items`, ValueAdapter has not."""
+    isc = _z3.Function("is_container", _so(_Abs("Val")), _z3.BoolSort())(_vt(I, args[0]))
+    if I.ctx.branch(isc):
+        return _Obj("ContainerAdapterType", {"items": _items})
+    return _Obj("ValueAdapterType", {})
+
+
+def _is_unmanaged_inst(I, sv, name, qual):
+    from pyvc.interp import _MISSING
+
+    return _MISSING
+
+
+contract(
+    UV + ".UndecidedValue._get_changes.handle",
+    params={"self": "@Value", "node": "Node", "obj": "Val"},
+    self_cls=UV + ".UndecidedValue",
+    callees={"inline_snapshot._adapter.adapter.get_adapter_type": _get_adapter_type},
+    returns=None,
+    frame=[],
+    ensures={
+        # C05: "An update never changes the value the argument evaluates to" -- each update replaces exactly one
+        # leaf by the code of that same leaf value
+        "only-updates [C05,C08]": "all(trace[j].flag == 'update' and trace[j].kind == 'Replace' for j in range(0, len(trace)))",
+        "update-keeps-value [C05,C08]": "all(same(trace[j].new_value, trace[j].old_value) for j in range(0, len(trace)))",
+        "code-is-code-of-the-replaced-value [C05,C18,C03]": "all(trace[j].code == code_of(trace[j].new_value) for j in range(0, len(trace)))",
+        "leaf-replaced-at-its-own-node [C05,C18,C03]": "implies(not is_container(obj), all(same(trace[j].node, node) and same(trace[j].new_value, obj) for j in range(0, len(trace))))",
+    },
+    loops={0: Loop(index="k", inv={
+        "only-updates": "all(trace[j].flag == 'update' and trace[j].kind == 'Replace' for j in range(0, len(trace)))",
+        "update-keeps-value": "all(same(trace[j].new_value, trace[j].old_value) for j in range(0, len(trace)))",
+        "code-of-value": "all(trace[j].code == code_of(trace[j].new_value) for j in range(0, len(trace)))",
+    })},
+    safety_props=["C18"],
+    ghost={"frame_props": ["C14"]},
+    assumes=["PS7", "X2", "X10"],
+)
+
+# --------------------------------------------------------------------------------------------
+# MinMaxValue._get_changes: what is pending for `<=` / `>=` snapshots (C05 category algebra)
+
+for cls, cmpname in (("MinValue", "le"), ("MaxValue", "ge")):
+    def cmp2(a, b, _c=cmpname):
+        return f"{_c}({a}, {b})"
+
+    ONE = "(len(trace) == 1)"
+    contract(
+        MM + ".MinMaxValue._get_changes",
+        name=f"{MM}.MinMaxValue._get_changes#{cls}",
+        params={"self": "@Value"},
+        self_cls=f"{MM}.{cls}",
+        uses=["val"],
+        callees={"MinMaxValue.cmp": "inline", f"{cls}.cmp": "inline"},
+        requires={"decided": "self._old_value is not undefined and self._new_value is not undefined"},
+        frame=[],
+        ensures={
+            "at-most-one-change [C05,C18]": "len(trace) <= 1",
+            # C05: "fix is reported exactly when some comparison against the current value fails" -- with the class
+            # invariant (new is the extreme of the observations) cmp(old, new) fails iff cmp(old, x) fails for some x
+            "fix-iff-bound-violated [C05,C07]": "(" + ONE + " and trace[0].flag == 'fix') == (not T(" + cmp2("self._old_value", "self._new_value") + "))",
+            # C05: "trim only removes slack - a bound that is satisfied but not tight"
+            "trim-iff-slack [C05]": "(" + ONE + " and trace[0].flag == 'trim') == (T(" + cmp2("self._old_value", "self._new_value") + ") and not T(" + cmp2("self._new_value", "self._old_value") + "))",
+            # C05/C08: "An update never changes the value": only when both directions hold and the tokens differ
+            "update-only-for-equal-value [C05,C08]": "(" + ONE + " and trace[0].flag == 'update') == (T(" + cmp2("self._old_value", "self._new_value") + ") and T(" + cmp2("self._new_value", "self._old_value") + ")"
+                                                     " and self._ast_node is not None and tokens_differ(self._ast_node, self._new_value))",
+            "only-known-flags [C05]": "implies(" + ONE + ", trace[0].flag == 'fix' or trace[0].flag == 'trim' or trace[0].flag == 'update')",
+            # C05 "yields the tightest value" / C01: the replacement is the recorded extreme, written at the snapshot argument
+            "writes-the-extreme [C05,C01,C03]": "implies(" + ONE + ", same(trace[0].new_value, self._new_value) and same(trace[0].node, self._ast_node)"
+                                                " and trace[0].code == code_of(self._new_value) and trace[0].kind == 'Replace')",
+        },
+        safety_props=["C18"],
+        ghost={"frame_props": ["C14"]},
+        assumes=["PS7", "X2", "X10"],
+    )
+
+# --------------------------------------------------------------------------------------------
+# UndecidedValue: _get_changes (outer) and the five dispatchers
+
+contract(
+    UV + ".UndecidedValue._get_changes",
+    params={"self": "@Value"},
+    self_cls=UV + ".UndecidedValue",
+    frame=[],
+    ensures={
+        "only-updates [C05,C08]": "all(trace[j].flag == 'update' and trace[j].kind == 'Replace' for j in range(0, len(trace)))",
+        "update-keeps-value [C05,C08]": "all(same(trace[j].new_value, trace[j].old_value) for j in range(0, len(trace)))",
+        "code-is-code-of-the-replaced-value [C05,C18,C03]": "all(trace[j].code == code_of(trace[j].new_value) for j in range(0, len(trace)))",
+    },
+    safety_props=["C18"],
+    ghost={"frame_props": ["C14"]},
+)
+
+
+def _cls_is(I, obj, name):
+    return obj.cls.rsplit(".", 1)[-1] == name
+
+
+from pyvc.specs import SPEC_NS as _NS
+
+_NS["cls_is"] = _cls_is
+
+for op, target_cls, arg in (("__eq__", "EqValue", "other"), ("__le__", "MinValue", "other"), ("__ge__", "MaxValue", "other"),
+                            ("__contains__", "CollectionValue", "other")):
+    cmpx = {"__eq__": "eq(self._old_value, other)", "__le__": "le(self._old_value, other)", "__ge__": "ge(self._old_value, other)",
+            "__contains__": "contains(self._old_value, other)"}[op]
+    contract(
+        UV + ".UndecidedValue." + op,
+        params={"self": "@UValue", arg: "Val"},
+        shapes={"UValue": Shape(UV + ".UndecidedValue", {"_old_value": "Val", "_new_value": "=Ellipsis", "_ast_node": "Node", "_context": "@Context", "_changes": "unbound"})},
+        returns="Val",
+        result_name="ret",
+        uses=["val"],
+        callees={"UndecidedValue._change": "inline"},
+        requires={"compared-value-is-not-the-sentinel": "other is not undefined"},
+        raises={"UsageError": {"only-from-clone [C17]": "not T(eq(other, deepcopy(other)))"}},
+        ensures={
+            # C06/C14: the first operation decides the kind of the snapshot, then behaves like that kind
+            "decides-the-kind [C06,C14]": f"cls_is(self, '{target_cls}')",
+            "plain-result-without-flags [C06]": "implies(" + NOFLAGS + " and self._old_value is not undefined, same(ret, " + cmpx + "))",
+            "missing-counted [C07]": "state.missing_values == old(state.missing_values) + ite(self._old_value is undefined, 1, 0)",
+            "failing-comparison-counted [C07]": "implies(self._old_value is not undefined and not T(" + cmpx + "), state.incorrect_values > old(state.incorrect_values))",
+        },
+        safety_props=["C18"],
+        assumes=["PS6", "PS7"],
+    )
+
+# --------------------------------------------------------------------------------------------
+# C06: "Using one snapshot with two different operations raises TypeError" -- method resolution table
+
+from pyvc.contract import static_check
+
+OPS = ["__eq__", "__le__", "__ge__", "__contains__", "__getitem__"]
+KINDS = {
+    EQ + ".EqValue": "__eq__", MM + ".MinValue": "__le__", MM + ".MaxValue": "__ge__",
+    CV + ".CollectionValue": "__contains__", "inline_snapshot._snapshot.dict_value.DictValue": "__getitem__",
+}
+
+
+@static_check("value-kinds-reject-other-operators", props=["C06"])
+def _mro_table():
+    import ast
+
+    from pyvc.defaults import DEFAULT_POLICIES, SHAPES
+    from pyvc.specs import AXIOM_SETS, SPEC_NS
+    from pyvc.verify import Verifier
+    from pyvc.contract import Contract
+
+    V = Verifier(Contract(target="x"), SPEC_NS, AXIOM_SETS, DEFAULT_POLICIES, SHAPES)
+    rows = []
+    for cls, own in KINDS.items():
+        for op in OPS:
+            r = V.find_method(cls, op)
+            where = f"{r[1][1].qual}.{r[1][0].name}" if r and r[0] == "method" else str(r)
+            if op == own:
+                ok = r is not None and r[0] == "method" and not where.startswith(GV + ".GenericValue.")
+                detail = f"{cls}.{op} resolves to {where} (its own operation)"
+            else:
+                # must resolve to GenericValue.<op>, whose whole body is `self._type_error(...)`
+                ok = where == f"{GV}.GenericValue.{op}"
+                if ok:
+                    fn = r[1][0]
+                    body = [st for st in fn.body if not (isinstance(st, ast.Assign) and ast.unparse(st.targets[0]) == "__tracebackhide__")]
+                    ok = len(body) == 1 and ast.unparse(body[0]).startswith("self._type_error(")
+                detail = f"{cls}.{op} resolves to {where}"
+            rows.append(dict(id=f"static/mro:{cls.rsplit('.', 1)[-1]}.{op}", ok=bool(ok), detail=detail))
+    return rows
+
+
+contract(
+    GV + ".GenericValue._type_error",
+    params={"self": "@Value", "op": "Opaque"},
+    raises={"TypeError": {"raises-TypeError [C06]": "True"}},
+    ensures={"never-returns-normally [C06]": "False"},
+    safety_props=["C06"],
+)
